@@ -34,4 +34,7 @@ lane5() {
 ev C04 7 internal/rsm/zz_demo_test.go ./internal/rsm -- C08
 ev C09 8 internal/logdb/zz_demo_test.go ./internal/logdb -- C09
 }
+lane6() {
+ev C05 7 internal/rsm/zz_demo_test.go ./internal/rsm -- C08
+}
 "$@"
